@@ -32,6 +32,8 @@ for kind, pre in (("sync", "s"), ("thread", "t"), ("async", "a")):
     row(pre + "_res_lru2", kind, ret="res", limit=2, policy="lru")
     row(pre + "_res_lfu2", kind, ret="res", limit=2, policy="lfu")
     row(pre + "_res_std", kind, ret="res_std", limit=2, policy="fifo")
+    row(pre + "_res_ttl2", kind, ret="res", limit=2, policy="lru", ttl=2)
+    row(pre + "_cif_ttl2", kind, cif=True, limit=2, policy="fifo", ttl=2)
     # cache_if
     row(pre + "_cif", kind, cif=True)
     row(pre + "_cif_lru2", kind, cif=True, limit=2, policy="lru")
